@@ -54,6 +54,26 @@ def make_cases(rng, tier, budget):
             c3["history"] = c3["history"] + [["build", vers, root], ["build", ok[1], ok[2]]]
             c3["tag"] = {"nested_raise_in": f, "at": k}
             out.append(c3)
+    # "... or while the cache file is being written": a fault at the open / write of the cache file of
+    # a first build (no previous cache) and of a later build
+    import shutil
+    from .. import seq, common
+    work = common.fresh_workdir("c02gen")
+    try:
+        for c in [x for x in out if "raise_point" in x.get("tag", {})][: (6 if tier == "quick" else 40)]:
+            base = json.loads(json.dumps(c))
+            base["history"] = [s for s in base["history"] if not (s[0] == "build" and s[2] and s[2][-1][0] == "raise")]
+            c0 = dict(base)
+            c0["faults"] = []
+            obs, st = seq.impl_run(c0, work)
+            cw = [k for k, name, _ in st["mut_log"] if name in ("gzip.open", "gzip.write")]
+            for k in sorted(set(cw[:2] + cw[-2:])):
+                c2 = json.loads(json.dumps(base))
+                c2["faults"] = [k]
+                c2["tag"] = {"cache_write_fault": k}
+                out.append(c2)
+    finally:
+        shutil.rmtree(work, ignore_errors=True)
     return out
 
 
